@@ -92,7 +92,7 @@ PROPS = {
     "C03": [("C03.v", r"."), ("Glue.v", r"."), ("GlueAcc.v", r"."), ("GlueCtor.v", r"."), ("GlueLog.v", r"."), ("GlueCub.v", r"."), ("GlueHi.v", r"."), ("Bridge.v", r"Bridge_index_|Bridge_gmap|Bridge_gm_checkb")],
     "C04": [("C04dense.v", r"."), ("C04pag.v", r"."), ("C04pagloops.v", r"."), ("C04sparse.v", r"."), ("LayerA.v", r"^A[1-7]_"), ("Refine.v", r"^Rf_st_|^Rf_StInv"), ("Misc.v", r"^GRID_")],
     "C05": [("C05.v", r"."), ("LayerA.v", r"^A8_"), ("Sketch2.v", r"^C05_")],
-    "C06": [("Wire.v", r"^C06_"), ("WireRaw.v", r"concat"), ("WireAny.v", r"^C06_"), ("WireAny2.v", r"^C06_x_")],
+    "C06": [("Wire.v", r"^C06_"), ("WireRaw.v", r"concat"), ("WireAny.v", r"^C06_"), ("WireAny2.v", r"^C06_x_"), ("C18grid.v", r"gridq")],
     "C07": [("Wire.v", r"^C07_"), ("WireRaw.v", r"."), ("WireAny.v", r"^C07_"), ("WireAny2.v", r"^C07_x_")],
     "C08": [("Wire.v", r"^C08_"), ("WireAny.v", r"^C08_"), ("WireAny2.v", r"^C08_x_"), ("C18.v", r"prefix_eof|reads_at_most_9"), ("C19.v", r"truncated|short_input|unknown_mapping")],
     "C09": [("Proto.v", r"."), ("Misc.v", r"^C09_b_"), ("ProtoEdit.v", r"^C09_edit_")],
@@ -105,7 +105,7 @@ PROPS = {
     "C15": [("C04dense.v", r"inv_clear|clear_like_new"), ("C04pag.v", r"clear"), ("C05.v", r"clear"), ("C04sparse.v", r"clear"), ("Refine.v", r"clear")],
     "C16": [("Sketch.v", r"^C16_"), ("C04dense.v", r"reweight"), ("C04pag.v", r"reweight"), ("LayerA.v", r"^A5_|bscale"), ("C05.v", r"reweight"), ("Refine.v", r"reweight"), ("C10.v", r"^reweight_"), ("Misc.v", r"^C16_f_|^GRID_")],
     "C17": [("ChangeMapping.v", r"."), ("ChangeMappingF.v", r"."), ("ChangeMappingQ.v", r"."), ("C10.v", r"^rescale_"), ("Misc.v", r"^C17_f_")],
-    "C18": [("C18.v", r".")],
+    "C18": [("C18.v", r"."), ("C18grid.v", r".")],
     "C19": [("C19real.v", r"."), ("C19.v", r"."), ("Glue.v", r"build_float64|decompose|f_of_int"), ("Bridge.v", r"Bridge_with_.*rebuild|Bridge_with_gamma_fields|Bridge_with_accuracy_is")],
     "C20": [("C20.v", r"."), ("Instance.v", r"^I_C20_"), ("Sketch3.v", r"^C20_|^I_C20_"), ("C20sum.v", r"^C20_sum_")],
 }
